@@ -334,6 +334,13 @@ func checkSortComparators(c *core.Ctx, rule string, fns []*ssa.Function) int {
 				}
 			}
 			c.Touch(fn)
+			// the shared auditor (also used by the map-order engine) has the final word on strictness
+			if bad, why := eng.SortComparatorBad(ci); bad {
+				okSame, okStrict = false, false
+				detail = append(detail, why)
+			} else {
+				okStrict = true
+			}
 			c.Decide(okSame && okStrict, rule, fn, "the sort comparator is a strict order on the elements of the slice being sorted", c.P.Rel(ci.Pos()), strings.Join(detail, "; "))
 		}
 	}
